@@ -8,24 +8,30 @@ from props import _auto
 LEAN_MODULES = _auto.lean_modules("C20")
 VARIANTS = ["default", "relchk", "release"]
 RULE = ("unit generators gen_C20 (counters preset next to 2^32-1 and 2^64-1 through hooks, invalid argument shapes per entry point: each "
-        "length one below / one above the legal values, zero, very large) plus a deterministic sample of the C01..C15 workloads, all run "
-        "through debug / release+checks / plain release builds; non-trivial = any; distinct = distinct case lines")
+        "length one below / one above the legal values, zero, very large) plus the C01..C15 workloads thinned per (op, kind) class (every k-th "
+        "case within each class, the first always kept; quick: k = REUSE over the quick generators, thorough: k = REUSE_THOROUGH over the "
+        "THOROUGH generators), all run through debug / release+checks / plain release builds; non-trivial = any; distinct = distinct case lines")
 TRUSTED = ["hand-written Lean models tied to the code by the correspondence run",
            "memory safety of unsafe pointer code and the profile switch itself are observed on the real binaries, not proved"]
 PROOF_SCOPE = 'partial by nature: overflow-freedom, counter and refusal theorems are about the models; identical behaviour across debug / release+checks / release binaries, and memory safety of unsafe code (thorough: Miri), are observed'
 ASSUMPTIONS = ["Argon2 parameter ranges the crate documents as unchecked are outside the claim"]
 nontrivial = _auto.default_nontrivial
-REUSE = {"C01": 8, "C02": 60, "C03": 4, "C04": 4, "C05": 10, "C06": 10, "C07": 10, "C08": 8, "C09": 20, "C10": 8, "C11": 4,
+# stride per (op, kind) class of the reused workloads
+REUSE = {"C01": 8, "C02": 60, "C03": 4, "C04": 4, "C05": 10, "C06": 10, "C07": 12, "C08": 8, "C09": 30, "C10": 8, "C11": 4,
          "C12": 8, "C13": 6, "C14": 8, "C15": 30}
+REUSE_THOROUGH = {"C01": 8, "C02": 80, "C03": 2, "C04": 6, "C05": 8, "C06": 5, "C07": 10, "C08": 1, "C09": 40, "C10": 1, "C11": 2,
+                  "C12": 4, "C13": 2, "C14": 3, "C15": 20}
 
 
 def gen(tier, rng):
     yield from _auto.make_gen("C20")(tier, rng)
-    for prop, stride in REUSE.items():
-        k = stride if tier == "quick" else max(1, stride // 3)
-        for i, (line, kind) in enumerate(_auto.make_gen(prop, also=False)("quick", rng)):
-            if i % k == 0 and not kind.endswith(".wild"):   # `.wild` = outside the valid domain: profile dependent by nature
+    for prop, stride in (REUSE if tier == "quick" else REUSE_THOROUGH).items():
+        def src(prop=prop):
+            for line, kind in _auto.make_gen(prop, also=False)(tier, rng):
                 yield (line, f"{prop}/{kind}")
+        # every stride-th case WITHIN each (op, kind) class, the first of each class always kept;
+        # `.wild` = outside the valid domain: profile dependent by nature
+        yield from _auto.thin(src(), stride, keep=lambda line, kind: not kind.endswith(".wild"))
 
 
 # ---------------------------------------------------------------------------------------------------------------------
